@@ -34,8 +34,7 @@ META = dict(
 
 def _variants(p, pat, k):
     out = [dict(rational=False, dim=0 if k % 2 == 0 else 2, call=("call", "eval", "seq")[k % 3])]
-    if p >= 1:
-        out.append(dict(rational=True, dim=0 if k % 3 else 2, call="call"))
+    out.append(dict(rational=True, dim=0 if k % 3 else 2, call="call"))  # (degree 0 included)
     return out
 
 
@@ -56,11 +55,11 @@ def configs(tier, seed):
             cfgs.append(dict(name=name, mode="S", p=p, mults=pat, **v))
     # concrete (K) vectors: int-typed and Fraction-typed, symbolic u and control points
     for k, (p, pat) in enumerate(fam.pattern_family(range(0, 4), 2, seed=seed)):
-        if (k + seed) % 4 and tier == "quick":
+        if (k + seed) % 4 and tier == "quick" and p > 0:
             continue
         vals = fam.concrete_values(len(pat), seed, k)
         cfgs.append(dict(name=f"K frac p={p} mults={pat} vals={[str(v) for v in vals]}", mode="K", p=p, mults=pat,
-                         vals=[str(v) for v in vals], rational=bool(k % 2) and p > 0, dim=0, call="call"))
+                         vals=[str(v) for v in vals], rational=bool(k % 2), dim=0, call="call"))
     # close knots: no minimum gap (known finding F5 lives here)
     cfgs.append(dict(name="S close p=1 mults=[2, 1, 2] pol dim=0 call", mode="S", p=1, mults=[2, 1, 2], rational=False,
                      dim=0, call="call", close=True))
@@ -95,7 +94,10 @@ def body(env, cfg):
     npts = kv.n
     P = make_points(env, "P", npts, cfg["dim"])
     W = None
-    if cfg["rational"]:
+    if cfg["rational"] and cfg["mode"] == "K":
+        from .c08 import conc_weights
+        W = conc_weights(npts, 3)  # concrete non-integer weights: the real find_roots runs
+    elif cfg["rational"]:
         W = env.positives("w", npts)
         if env.sym:
             env.patch(heavy, "find_roots", lambda *a, **k: ())
